@@ -586,4 +586,43 @@ def run(tier, seed):
                 v = const_val(s.ops[0]) if is_const(s.ops[0]) else None
                 okv = (v == 1) or (v == 0 and s.fn.cname == "lha_basic_reader_new")
                 rep.check(rid2, okv, "store eof = %s in %s" % (v, s.fn.cname), s.where(), None, function=s.fn.cname, obj="eof")
+        end_consistency_rules(rep, ctx, mod)
     return rep.finish(seed)
+
+
+def end_consistency_rules(rep, ctx, mod, prefix=""):
+    """What lha_basic_reader_next_file returns is what lha_basic_reader_curr_file will report: the reader above re-reads the current
+    entry through that accessor, so a NULL return that leaves the old entry in place would hand the same member out again for ever."""
+    BR = "LHABasicReader"
+    rid = rep.rule(prefix + "R6c", "lha_basic_reader_next_file returns what it leaves in reader->curr_file: a NULL return is reached only with curr_file NULL, "
+                                   "a non-NULL return is the value of curr_file", 2)
+    nf = rep.need(rid, mod.fn("lha_basic_reader_next_file"), "function lha_basic_reader_next_file")
+    if not nf:
+        return
+    F = ctx.facts(nf)
+    M = Matcher(nf)
+    cur = ("load", ("field", BR, "curr_file", ("param", 0)))
+    sts = stores_to_field(mod, BR, "curr_file", [nf])
+    null_st = [s_ for s_ in sts if is_const(s_.ops[0]) and const_val(s_.ops[0]) == 0]
+    for r in rets(nf):
+        seen_null = False
+        for v, fs in F.sources(r.ops[0]):
+            if is_const(v) and const_val(v) == 0:
+                if seen_null:
+                    continue
+                seen_null = True
+                # every path to this return crosses 'curr_file == NULL' or a store of NULL, and no store of something else follows on the way
+                cut = F.edges_with_fact(("eq", cur, 0))
+                for s_ in null_st:
+                    cut |= {(s_.block.id, t) for t in s_.block.succs}
+                # the return's own phi edge: find the predecessor blocks through which the constant flows
+                preds = [pb for (vv, pb) in (nf.defn(r.ops[0]).incoming if nf.defn(r.ops[0]) is not None and not nf.defn(r.ops[0]).is_param and nf.defn(r.ops[0]).op == "phi" else [])
+                         if is_const(vv) and const_val(vv) == 0] or [r.block.id]
+                bad = [pb for pb in preds if (pb == 0 and not any(s_.block.id == 0 for s_ in null_st)) or (pb != 0 and F.reaches_avoiding(0, pb, cut)
+                                                                                                          and not any(s_.block.id == pb for s_ in null_st))]
+                rep.check(rid, not bad, "NULL is returned only after curr_file was found or made NULL", "%s:%s" % (nf.file, nf.blocks[preds[0]].term.line()),
+                          "a NULL return is reachable (via bb%s) while reader->curr_file may still hold the previous entry" % bad if bad else None,
+                          function=nf.cname, obj="null-return")
+            else:
+                ok = M.match(cur, v, {}) is not None
+                rep.check(rid, ok, "a non-NULL return value is reader->curr_file", nf.file, describe(nf, v), function=nf.cname, obj="value-return")
